@@ -302,7 +302,9 @@ def apply(x, op, sym):
       return obj.update(**mp)
     return obj.update(mp)
   if name == 'setdefault':
-    return obj.setdefault(key, v)
+    r = obj.setdefault(key, v)
+    # what setdefault returns is what the dict holds (`d.setdefault(k, []).append(x)` is the point of the method)
+    return (r, 'is-the-stored-value', r is obj[key] if isinstance(r, (list, dict)) else True)
   if name == 'dclear':
     return obj.clear()
   if name == 'ior':
